@@ -118,6 +118,11 @@ func (f *frame) callStatic(x ssa.CallInstruction, callee *ssa.Function, args []V
 		// another package's initialiser: its effects are summarised by that package's global facts
 		return st
 	}
+	if f.top && f.contract != nil && f.contract.CallReq != nil && !f.specMode {
+		if reqs := f.contract.CallReq[callee.Name()]; len(reqs) > 0 {
+			f.callSiteRequires(x, callee, reqs, args, st, reach)
+		}
+	}
 	// 1. contract
 	if ct := c.eng.contractOf(callee); ct != nil && !(f.top && callee == f.fn && false) {
 		res, nst := f.applyContract(ct, callee, args, st, reach, x)
@@ -129,6 +134,12 @@ func (f *frame) callStatic(x ssa.CallInstruction, callee *ssa.Function, args []V
 		res, nst, ok := m.apply(f, callee, args, st, reach, x)
 		if ok {
 			f.setResult(x, res)
+			if v, isVal := x.(ssa.Value); isVal && len(m.allocs) > 0 && len(res) == 1 && rootOf(v, 0) == -2 {
+				var esc []ssa.Instruction
+				if !collectEscapes(v, 0, &esc) {
+					nst.heap = f.markPrivate(v, res[0], esc, nst.heap)
+				}
+			}
 			return f.copyBack(com, nst)
 		}
 	}
@@ -772,4 +783,37 @@ func (f *frame) stillFresh(mk *ssa.MakeSlice, x ssa.CallInstruction) bool {
 		}
 	}
 	return false
+}
+
+// callSiteRequires: preconditions the contract of the *caller* attaches to one of its call sites;
+// the expression sees the caller's parameters and the callee's parameters (bound to the arguments).
+func (f *frame) callSiteRequires(x ssa.CallInstruction, callee *ssa.Function, reqs []Clause, args []Val, st State, reach string) {
+	c := f.c
+	env := c.baseEnv(f.fn, f.contract, st, reach)
+	for i, p := range f.fn.Params {
+		if i < len(f.params) {
+			env.vars[p.Name()] = sval{f.params[i], p.Type(), ""}
+		}
+	}
+	for i, p := range callee.Params {
+		if i < len(args) {
+			env.vars[p.Name()] = sval{args[i], p.Type(), ""}
+		}
+	}
+	old := c.baseEnv(f.fn, f.contract, f.entry, sTrue)
+	for i, p := range f.fn.Params {
+		if i < len(f.params) {
+			old.vars[p.Name()] = sval{f.params[i], p.Type(), ""}
+		}
+	}
+	env.old = old
+	for k, v := range f.letCache {
+		env.vars[k] = v
+	}
+	site := c.eng.posString(x.Pos())
+	for _, r := range reqs {
+		g := c.evalBool(env, r.Expr)
+		c.addObl(&Obl{Name: fmt.Sprintf("%s/callsite[%s]/requires#%d@%s", f.fn.String(), callee.Name(), r.N, c.eng.lineText(x.Pos())), Kind: "callsite-requires",
+			Cond: reach, Goal: g, Clause: r.Text, Pos: site, Props: r.Props})
+	}
 }
